@@ -410,6 +410,13 @@ func c11Worker(tier Tier) int {
 					}
 					plain := c.Act
 					sweepOnly = append(sweepOnly, CatEntry{Name: c.Name + "[payability-error]", Func: c.Func, W: w, Act: plain, Light: true})
+					// ... and with one that answers "not payable" without an error (what the node's
+					// handler answers for a non-payable contract), for every destination
+					wn := c.W.Clone()
+					for _, d := range [][]byte{uni.A0, uni.B0, uni.C1, uni.S0, uni.S1c, uni.E2} {
+						wn.Payable[string(d)] = world.PayNo
+					}
+					sweepOnly = append(sweepOnly, CatEntry{Name: c.Name + "[not-payable]", Func: c.Func, W: wn, Act: plain, Light: true})
 				}
 			}
 			add("ESDTNFTCreateRoleTransfer/to-the-holder-itself", dup.W, uni.SysCall(uni.B0, vmcommon.BuiltInFunctionESDTNFTCreateRoleTransfer, uni.S, uni.B0))
